@@ -2,7 +2,10 @@
 import os
 from props import ModuleCheck, T, bundled
 
-ORACLE_CLAUSES_C17 = ["C17_Append", "C17_Aggregate", "C17_History", "C17_StateMirror", "C17_Authority"]
+ORACLE_CLAUSES_C17 = ["C17_Append", "C17_Aggregate", "C17_History", "C17_StateMirror", "C17_Authority",
+                      # history-based twins (audit): feed context / creator / latest-history from the accepted events, the
+                      # answers of a batch from the Respond events the harness sent - never from the feed record
+                      "C17_AppendH", "C17_AggregateH", "C17_HistoryH", "C17_StateMirrorH", "C17_AuthorityH"]
 
 ORACLE_RND = T(
     [dict(n=10, len=30, procs=6, cfg="users=2,provs=3,funds=60,maxfeeds=3,maxtimeout=3"),
@@ -47,11 +50,11 @@ ORACLE_SCN = [dict(file="scenarios/oracle_cover.ndjson", cfg=_SCN_CFG),
 PROBE_REQUIRED = (["m_%s_%s_%s" % (c, st, r) for c in ("start", "pause", "edit")
                    for st in ("paused", "autop", "idle", "open0", "openN", "full") for r in ("creator", "prov", "other")]
                   + ["pay_" + p for p in ("exp zeros str dupfirst dupbody extra ridlower negzero missing null false obj arr "
-                                          "strbad nobody true emptyout errout badresult nohdr ridshort err400").split()]
+                                          "strbad nobody true nan emptyout errout badresult nohdr ridshort err400").split()]
                   + ["pay_zero_counts", "odd_prov_ok", "odd_prov_rej", "bad_prov_create_rej", "bad_prov_edit_rej", "bad_name_rej", "case_twin_ok", "unknown_name_cmd",
                      "cap_denom_rej", "respond_stranger", "respond_expiry_block", "respond_late", "respond_twice",
                      "complete_after_edit", "nested_path", "index_path", "create_invalid", "create_by_prov",
-                     "svc_name_rej", "agg_case_rej"])
+                     "svc_name_rej", "agg_case_rej", "nan_skipped"])
 
 # C11 (finding F7): a short live run whose exchange-rate outcomes straddle the five-minute limit the oracle's
 # module service measures against the host clock; recorded under VERIF_RECORD_DIR and replayed later on replicas.
